@@ -197,6 +197,27 @@ def run(ctx):
               'the host check no longer refuses %s: a host whose IDNA mapping produces such a delimiter (e.g. U+FF0F -> "/") is '
               'accepted and the normalised URL parses back to a different host and path' % (
                   ' '.join(repr(c) for c in sorted(need - (forb or set()))) if forb is not None else 'a constant set'), 'wpull/url.py')
+    # any bound put on a part of a dotted IPv4 spelling admits exactly 0..255 (an off-by-one keeps `0xC0.0xA8.0x01.0xFF` from
+    # being canonicalised while the all-decimal spelling of the same address passes unchanged)
+    for fn_ in [f_ for f_ in repo.funcs.values() if f_.module.name == 'wpull.url' and 'ipv4' in f_.name.lower()]:
+        for n_ in walk_no_nested(fn_.node):
+            bad_ = None
+            if isinstance(n_, ast.Call) and dotted(n_.func) == 'range' and len(n_.args) in (1, 2) and isinstance(n_.args[-1], ast.Constant) \
+                    and n_.args[-1].value in (255, 257):
+                bad_ = 'range(%s) does not contain exactly 0..255' % n_.args[-1].value
+            if isinstance(n_, ast.Compare) and len(n_.ops) == 1:
+                a_, b_, op_ = n_.left, n_.comparators[0], n_.ops[0]
+                if isinstance(a_, ast.Constant) and not isinstance(b_, ast.Constant):
+                    a_, b_ = b_, a_
+                    op_ = {ast.Lt: ast.Gt, ast.Gt: ast.Lt, ast.LtE: ast.GtE, ast.GtE: ast.LtE}.get(type(op_), type(op_))()
+                if isinstance(b_, ast.Constant) and isinstance(b_.value, int) and not isinstance(b_.value, bool) and b_.value in (255, 256):
+                    okc_ = (b_.value == 255 and isinstance(op_, (ast.Gt, ast.LtE))) or (b_.value == 256 and isinstance(op_, (ast.GtE, ast.Lt))) \
+                        or isinstance(op_, (ast.Eq, ast.NotEq))
+                    if not okc_:
+                        bad_ = '`%s` is off by one for an octet' % norm_text(n_)
+            if bad_:
+                ck.bad('C10-D1', fn_.qual, 'bounds on an IPv4 part admit exactly 0..255', bad_ + ': a spelling with an octet of 255 (or 256) is '
+                       'treated differently from its decimal twin, so spellings of one address get different canonical URLs', fn_.loc(n_))
     nh = repo.func(URL + ':normalize_hostname')
     names = [U.attr_name(c) for c in U.calls(nh.node)]
     idna = any(U.attr_name(c) == 'encode' and c.args and isinstance(c.args[0], ast.Constant) and c.args[0].value == 'idna'
